@@ -636,7 +636,7 @@ def read_tables(repo):
     decs += decorator_rows(fns["compile_maths_expression"][0], "HMaths", a_ops, "compile_maths_expression")
     decs += decorator_rows(fns["compile_augassign_expression"][0], "HAug", a_ops, "compile_augassign_expression")
     chd = fns["compile_chained_comparison"][0].decorator_list
-    if len(chd) != 1 or ast.dump(chd[0]) != ast.dump(ast.parse('pattern_macro("chainc", [FORM, many(SYM + FORM)])', mode="eval").body):
+    if len(chd) != 1 or ast.dump(chd[0]) != ast.dump(ast.parse('pattern_macro("chainc", [FORM, oneplus(SYM + FORM)])', mode="eval").body):
         raise ShapeChanged("compile_chained_comparison: decorator changed")
     # no other function may install a macro under one of these names
     mine = {n for d in decs for n in d[1]}
